@@ -71,6 +71,10 @@ class Gen:
         return pid
 
     def pick(self, scope):
+        # prior objects are re-used only within one scope ("scat": the scatterer; "other": theory, optics, alpha).
+        # Scatterer.parameters is a deepcopy, so an object used both inside the scatterer and outside it reaches the
+        # Mapper as two different objects (two parameters); the property speaks of sharing between places of the
+        # scatterer, so such cross-use is not generated and the model's single id space is faithful.
         have = self.scopes.get(scope, [])
         if have and self.rng.random() < 0.4:
             return self.rng.choice(have)
@@ -209,6 +213,36 @@ def gen_case(rng, rigid=False):
         kind = "ExactModel"
         modelp = []
     return dict(scat=scat, theory=theory, optics=optics, kind=kind, modelp=modelp, priors=G.info)
+
+
+def gen_shared_name_case(rng):
+    """targeted stream for get_parameter_index's shared-name rule: one prior object at the same key of every
+    member of a collection ("0:n", "1:n" -> "n"), with or without another prior explicitly named like that key
+    (then the rename must NOT happen), registered before or after the second site"""
+    G = Gen(rng)
+    k = rng.choice([2, 2, 3])
+    key = rng.choice(["n", "r"])
+    other = "r" if key == "n" else "n"
+    shared = G.new_prior("scat", name=rng.choice([None, None, None, "q"]))
+    clash_at = rng.randrange(k) if rng.random() < 0.7 else None
+    ms = []
+    for i in range(k):
+        pars = {"n": ("c", rng.randint(1, 9)), "r": ("c", rng.randint(1, 9))}
+        pars[key] = ("p", shared)
+        if clash_at == i:
+            pars[other] = ("p", G.new_prior("scat", name=key))
+        elif rng.random() < 0.3:
+            pars[other] = ("p", G.pick("scat"))
+        cz = ("p", shared) if rng.random() < 0.2 else ("c", rng.randint(0, 5))
+        ms.append(("leaf", "Sphere", [["n", pars["n"]], ["r", pars["r"]], ["center", ("list", [("c", 3 * i), ("c", 0), cz])]]))
+    scat = ("group", "Spheres" if rng.random() < 0.7 else "Scatterers", ms)
+    optics = [["medium_index", ("c", None)], ["illum_wavelen", ("c", None)], ["illum_polarization", ("c", None)],
+              ["noise_sd", ("c", None)]]
+    if rng.random() < 0.5:
+        return dict(scat=scat, theory=("Mie", []), optics=optics, kind="AlphaModel",
+                    modelp=[["alpha", ("p", G.new_prior("other", name=rng.choice([None, key]))) if rng.random() < 0.3
+                             else ("c", 1)]], priors=G.info)
+    return dict(scat=scat, theory=("Mie", []), optics=optics, kind="ExactModel", modelp=[], priors=G.info)
 
 
 def gen_sphere_simple(G):
@@ -708,7 +742,11 @@ def stage_models(ctx):
     rng = ctx.subrng("models")
     exprs, metas = [], []
     for k in range(ctx.n(150, 2500)):
-        case = gen_case(rng)
+        if k % 6 == 5:
+            case = gen_shared_name_case(rng)
+            ctx.count("stream:shared-name")
+        else:
+            case = gen_case(rng)
         m, scat, P = build_model(case)
         names, ids, vals, got = observe_model(ctx, case, m, rng, exprs, metas)
         check_property_direct(ctx, case, m, names, ids, vals, got, "direct")
@@ -1025,22 +1063,36 @@ def run(ctx):
                 "depth 3; non-trivial = case with a shared prior, case with colliding explicit names, distinct (case, tie subset), "
                 "distinct rebuilt scatterer, rigid cluster whose expected result is actually moved")
     ctx.clauses_proved = [
-        "names stay pairwise distinct under any sequence of conversions (names_nodup)",
-        "the fresh-name search terminates within length(names)+1 steps (fresh_name_terminates)",
-        "parameters = the distinct priors in first-occurrence order (one_param_per_prior)",
-        "read_map (convert t) vals = t with every prior replaced by its value, constants untouched, transformations applied "
-        "(read_convert), for any interpretation of the transformations",
-        "guess values give the guess scatterer (guess_scatterer)",
-        "name-keyed and list-ordered values agree (dict_vs_list)",
-        "tie: edited indices are the positions after deletion; tied read = untied read when values agree; |I|-1 parameters go "
-        "(edit_index_is_position, tie_semantics, tie_removes_duplicates)",
-        "'i:key' flattening and collection are inverse; rebuilding a scatterer from its own parameters is the identity on the "
-        "tree model (flatten_unflatten_keys, rebuild_id)",
-        "RigidCluster inside a Model: the faithful model loses rotation / translation (rigid_model_params_refuted)"]
+        "names stay pairwise distinct (and one per parameter) under any sequence of conversions with one Mapper, any prior names, "
+        "prefixes and sharing (names_nodup); add_tie keeps them distinct unless the user-supplied new name collides (add_tie_spec)",
+        "add_parameter's unbounded de-duplication loop stops within length(names)+1 steps at the first free base_k "
+        "(fresh_name_terminates, fresh_name_is_first_free; pigeonhole over injective candidate names)",
+        "parameters = the distinct prior objects in first-occurrence order, no duplicates (one_param_per_prior)",
+        "read_map (convert t) vals = t with every prior replaced by the value at its final index, constants untouched, None "
+        "dictionary entries dropped, transformations applied, for every tree (nested lists / dicts / xarrays / complex / "
+        "transformations of any depth), any earlier Mapper state, any later extension of the parameter list and any "
+        "interpretation of the transformations (read_convert, read_convert_sequence, value_of_ith_parameter, "
+        "model_maps_read_back for Model.__init__'s four maps)",
+        "Model.scatterer_from_parameters = the scatterer with every prior replaced by its value, end to end through the dummy "
+        "scatterer and 'i:key' from_parameters, for simple scatterers and nested collections (scatterer_from_parameters_spec)",
+        "guess values give the guess tree / validate_scatterer gives the guess scatterer (guess_values_give_guess_tree, "
+        "guess_scatterer)",
+        "name-keyed values in any insertion order = list-ordered values (dict_vs_list; uses names_nodup)",
+        "tie: edit_map_indices' shift formula = position after deletion; the descending del loop removes exactly indices[1:]; "
+        "tied model on the shortened vector = untied model when the values agree on the tie; all of Model.add_tie incl. the "
+        "sort (edit_index_is_position, tie_removes_duplicates, tie_semantics, add_tie_spec)",
+        "'i:key' flattening and collection are inverse; from_parameters with a complete dictionary places every value; "
+        "rebuilding from the own parameters is the identity on the tree model (flatten_unflatten_keys, "
+        "from_parameters_places_every_value, rebuild_id)",
+        "RigidCluster inside a Model: the faithful model provably loses rotation / translation "
+        "(rigid_cluster_in_model_loses_parameters; Findings.v also shows that a class-preserving template would not)"]
     ctx.clauses_explored = [
         "rebuilt scatterer shares no mutable state with the original (python object aliasing is outside the tree model)",
-        "RigidCluster.from_parameters = rotated + translated collection (numerical, uses the C19 rotation)",
-        "python-level statement of placement / guess / tie semantics evaluated directly on the implementation"]
+        "RigidCluster.from_parameters = rotated + translated collection (numerical, uses the C19 rotation); rigid_equiv is not "
+        "proved",
+        "python-level statement of placement / guess / tie semantics evaluated directly on the implementation",
+        "add_tie with repeated names in the tie list and theory.from_parameters' own attribute handling are not covered by a "
+        "theorem (the former is outside the property's quantifier, the latter is compared in the correspondence only)"]
     ctx.trusted += ["oracle: the transformation functions (operator.add, operator.mul, complex, user callables) - abstract symbols in "
                     "the theorems, integer arithmetic in the executed instance",
                     "oracle: python object identity (is) modelled as equality of prior ids; copy.deepcopy modelled as structural copy",
